@@ -43,7 +43,7 @@ namespace OsmoVerif.Props.C08IncHist
 open OsmoVerif.Num OsmoVerif.CL OsmoVerif.CLPool OsmoVerif.CLFees OsmoVerif.CLInc OsmoVerif.CLFeesP OsmoVerif.CLIncP OsmoVerif.CLBook
 open OsmoVerif.Accum (amt)
 
-/-- the initial state of a history: an empty pool and an empty incentive layer with scaling factor `factor` and `auth`
+/-- the initial state of a history: an empty pool and an empty incentive layer with scaling factor `factor` and the bit mask `auth` of the
 authorised uptimes (what the engine's `reset` builds). -/
 def initI (spacing spf scale factor : Int) (auth : Nat) : Full :=
   { fees := initF spacing spf scale, inc := { factor := factor, authorized := auth } }
@@ -372,7 +372,7 @@ theorem never_in_range_earns_no_incentives {s : Full} (hi : IncInv s) {q : Posit
 /-! non-vacuity: the history of Props/C08Inc's demo as a message list — two positions, two incentive records, time passing, a swap
 that crosses tick 0 (bob leaves the range), more time, a sync -/
 
-def demo0 : Full := initI 100 2000000000000000 P18 P18 4
+def demo0 : Full := initI 100 2000000000000000 P18 P18 15
 
 def demoPre : List IOp :=
   [.fee (.create "alice" (-1000) 1000 1000000 1000000), .incentive 1 "inc0" 1000000 (1000 * P18) 0 1,
@@ -688,7 +688,7 @@ theorem reachable_time_inv {spacing spf scale factor : Int} {auth : Nat} (hs : 0
 /-- without that restriction the clause is FALSE of the model's history language (a negative `advance` is a legal op line):
 witness. -/
 theorem time_inv_needs_monotone_time_witness :
-    ¬ TimeInv (runI (initI 100 2000000000000000 P18 P18 4) [.advance 5, .sync, .advance (-3)]).inc := by
+    ¬ TimeInv (runI (initI 100 2000000000000000 P18 P18 15) [.advance 5, .sync, .advance (-3)]).inc := by
   intro h
   have := h.last
   revert this
